@@ -453,7 +453,7 @@ OBLIGATIONS = [
        replay=lambda a: _real("_ob_entity_attrs", a)),
     Ob("tag_consistency", _ob_tag, timeout=900,
        partition_by_tier={"quick": [(1, 1), (2, 1)],
-                          "thorough": [(r, (2, k)) for r in (1, 2) for k in range(0, 8)]},
+                          "thorough": [(r, (2, k)) for r in (1, 2) for k in range(0, 7)]},
        functions=[_V + "check_tag", _V + "get_dim_units", _V + "tag_units_match_refs_units"],
        replay=lambda a: _real("_ob_tag", a),
        outside="quick: single injections, thorough: pairs; one reference; unit tables"),
